@@ -517,6 +517,16 @@ class World:
         if k == 'Schedule':
             self._put_app(op[1], op[2])
             m.process_scheduled(b.list('/scheduled'))
+        elif k == 'ScheduleRaw':
+            # an instance created while no master is looking (fail-over window): the node is there, nothing is processed
+            self._put_app(op[1], op[2])
+        elif k == 'ServerBlackout':
+            node = '/blackedout.servers/' + sname(op[1])
+            if op[2]:
+                b.raw_put(node, {})
+            else:
+                b.raw_delete(node)
+            m.process_blackedout_servers(b.list('/blackedout.servers'))
         elif k == 'Unschedule':
             b.raw_delete('/scheduled/' + self.app(op[1]))
             m.process_scheduled(b.list('/scheduled'))
@@ -1310,7 +1320,7 @@ def gen_case(rng, profile='c10', max_ops=None):
                'Tick': 3, 'MasterCycle': 12, 'Restart': 3, 'RunningAll': 1, 'PendingStartCheck': 1,
                'OutageThenRestart': 2, 'ShrinkThenRestart': 1, 'DeleteRace': 1, 'FlapAcrossRestart': 0}
     if profile == 'c11':
-        weights.update({'Restart': 7, 'PresenceBounce': 4, 'IdentityGroup': 5, 'ServerRecord': 6})
+        weights.update({'Restart': 7, 'PresenceBounce': 4, 'IdentityGroup': 5, 'ServerRecord': 6, 'ServerBlackout': 3})
     if profile == 'c09':
         weights.update({'ServerDeleteApi': 3, 'IdentityGroup': 5, 'Renew': 3})
     if profile == 'sched':
@@ -1444,6 +1454,9 @@ def gen_case(rng, profile='c10', max_ops=None):
             ops.append(['ServerState', rng.choice(existing), st, apps])
         elif k == 'AppsBlacklist':
             ops.append(['AppsBlacklist', rng.choice([[], ['foo.*'], ['bar.*']])])
+        elif k == 'ServerBlackout' and existing:
+            # an operator blacks a server out (a trace event only: its instances stay) or clears the blackout
+            ops.append(['ServerBlackout', rng.choice(existing), rng.random() < 0.7])
         elif k == 'Priority' and live:
             ops.append(['Priority', rng.choice(live), rng.randint(0, 100)])
         elif k == 'Renew' and live:
